@@ -36,6 +36,10 @@ RULE = ("exhaustive (seed independent): a 5-column frame mixing every field type
 ASSUMPTIONS = ["numpy boolean / fancy indexing and np.argsort(kind='stable') behave as modelled (filterBy / gather / stable merge sort)",
                "h5py stores and returns arrays and attributes faithfully (C01); WriteableFieldArray.clear+write = replace",
                "fixed strings and timestamps are sent to the model as order-isomorphic integers",
+               "an indexed-string sort key is sorted as np.asarray(list_of_str) (a '<U' array) with np.argsort(kind='stable'): numpy "
+               "compares '<U' entries code point by code point and the stable argsort is stable; for valid UTF-8 the code-point "
+               "order is the bytewise order of the encodings (the order the theorems speak of); a '<U' array drops trailing NUL "
+               "characters ('a\\x00' ties with 'a': open finding NC09g, modelled as found) — generated keys do not end in NUL",
                "hand-written Lean model validated by this differential run, not verified against the Python text"]
 TRUSTED = ["Lean 4.33 kernel", "axioms: propext, Classical.choice, Quot.sound only (audited per theorem)",
            "checks/harness/c09.py generators, canonicalisation and oracle",
@@ -43,10 +47,15 @@ TRUSTED = ["Lean 4.33 kernel", "axioms: propext, Classical.choice, Quot.sound on
 LEVEL_TEXT = ("proof: kernel-checked Lean theorems about the executable model (both indexed-string kernels equal the row-level "
               "spec with memory safety; every write mode stores the same result; frame operations act column-wise with one "
               "row selection, leave every other frame untouched and keep metadata; dataset_sort_index equals the stable "
-              "lexicographic sort permutation), tied to the code by differential execution")
+              "lexicographic sort permutation; sort_values with ANY mix of numeric, fixed-string and indexed-string keys is "
+              "apply_index with THE stable ascending lexicographic permutation of the key tuples — rank encoding of a string "
+              "column is an order embedding — and rows with equal key tuples keep their order), tied to the code by "
+              "differential execution")
 LEVEL_NOTE = ("the model is validated against ExeTera by differential execution, not derived from the Python source; numpy "
               "indexing/argsort and h5py are modelled, not verified; theorems are about the code with fixes D8, NC09b, "
-              "NC09c, NC09d applied")
+              "NC09c, NC09d applied; string keys are ordered as numpy's '<U' arrays order them (code point order = bytewise order "
+              "of the UTF-8 encodings, trailing NUL characters ignored: the bytewise statement is frame_sort_is_index_all_keys_partial "
+              "with the hypothesis that no key ends in NUL, NC09g open)")
 TECHNIQUE = "Lean 4 theorems over an executable model + differential correspondence with the real functions"
 EXPLANATION = ""
 
@@ -1097,7 +1106,20 @@ def check_spec(case, io, mode):
 
 
 def match_finding(case, io, mode):
-    return None     # no open finding for C09: D8, NC09b, NC09c, NC09d are repaired by fix patches
+    # NC09g (open): sort by an indexed-string key that holds an entry ending in a NUL character (numpy '<U' arrays drop it)
+    if case.get("op") == "c09_frame":
+        for st in case.get("steps", []):
+            if st.get("what") != "sort":
+                continue
+            for fr in case.get("store", []):
+                if fr["name"] != st.get("src"):
+                    continue
+                for col in fr["cols"]:
+                    if col["name"] in (st.get("by") or []) and col.get("ftype") == "indexedstring":
+                        ix, vs = col.get("indices", []), col.get("values", [])
+                        if any(b > a and vs[b - 1] == 0 for a, b in zip(ix, ix[1:])):
+                            return "NC09g"
+    return None     # D8, NC09b, NC09c, NC09d, NC09e are repaired by fix patches
 
 
 # ------------------------------------------------------------------------------------------------------------------
